@@ -793,15 +793,26 @@ def translate_handler(meth, tables, cmio=False):
     return Handler(meth.name, params, defaults, '\n'.join(out), kinds)
 
 
+BYTE_REG = '0 ≤ {v} ∧ {v} ≤ 23 ∧ {v} ≠ 12 ∧ {v} ≠ 13'
 ROLE = {
     'timing': '0 ≤ {v}', 'size': '1 ≤ {v} ∧ {v} ≤ 4',
-    'r': '0 ≤ {v} ∧ {v} ≤ 23', 'rh': '0 ≤ {v} ∧ {v} ≤ 23', 'rl': '0 ≤ {v} ∧ {v} ≤ 23', 'xyh': '0 ≤ {v} ∧ {v} ≤ 23',
-    'xyl': '0 ≤ {v} ∧ {v} ≤ 23', 'ah': '0 ≤ {v} ∧ {v} ≤ 23', 'al': '0 ≤ {v} ∧ {v} ≤ 23', 'r1': '0 ≤ {v} ∧ {v} ≤ 23',
-    'r2': '0 ≤ {v} ∧ {v} ≤ 23', 'reg': '-1 ≤ {v} ∧ {v} ≤ 23', 'dest': '-1 ≤ {v} ∧ {v} ≤ 23',
+    'r': BYTE_REG, 'xyh': BYTE_REG, 'xyl': BYTE_REG, 'ah': BYTE_REG, 'al': BYTE_REG, 'r1': BYTE_REG, 'r2': BYTE_REG,
+    # register pairs are two byte registers, except in the closures that special-case rl == 12 or only read the
+    # pair: there (rh, rl) may also be (SP2, SP) = (13, 12); checked jointly below
+    'rh': BYTE_REG, 'rl': BYTE_REG,
+    'reg': BYTE_REG, 'out_c.reg': '-1 ≤ {v} ∧ {v} ≤ 23 ∧ {v} ≠ 12 ∧ {v} ≠ 13',
+    'dest': '-1 ≤ {v} ∧ {v} ≤ 23 ∧ {v} ≠ 12 ∧ {v} ≠ 13',
     'b': '0 ≤ {v} ∧ {v} ≤ 7', 'bit': '0 ≤ {v} ∧ {v} ≤ 255', 'c_and': '0 ≤ {v} ∧ {v} ≤ 255', 'c_val': '0 ≤ {v} ∧ {v} ≤ 255',
     'inc': '{v} = 1 ∨ {v} = -1', 'repeat': '0 ≤ {v} ∧ {v} ≤ 1', 'addr': '0 ≤ {v} ∧ {v} ≤ 65535',
     'iff': '0 ≤ {v} ∧ {v} ≤ 1', 'mode': '0 ≤ {v} ∧ {v} ≤ 2',
 }
+
+SP_PAIR_OK = ('ld_rr_nn', 'ld_rr_mm', 'ld_mm_rr', 'inc_dec_rr', 'add_rr', 'adc_hl', 'sbc_hl')
+for _h in SP_PAIR_OK:
+    ROLE[_h + '.rh'] = '0 ≤ {v} ∧ {v} ≤ 23 ∧ {v} ≠ 12'
+    ROLE[_h + '.rl'] = '0 ≤ {v} ∧ {v} ≤ 23 ∧ {v} ≠ 13'
+# secondary table parameters must be one specific table (their values are combined arithmetically)
+TABLE_IS_ROLE = {'sz53p': 'SZ53P', 'parity': 'PARITY', 'bit': 'BIT', 'neg': 'NEG'}
 
 SKIP_METHODS = {'__init__', 'set_tracer', 'run', 'accept_interrupt', 'prefix', 'prefix2', 'create_opcodes',
                 'djnz_fast', 'ldir_fast', 'contend_48k', 'contend_128k', 'io_contention_48k', 'io_contention_128k'}
@@ -934,13 +945,19 @@ def gen_sim(repo, cmio=False):
         conds = []
         for p in h.params:
             if h.kinds[p] != 'int':
+                if p in TABLE_IS_ROLE:
+                    conds.append(f'decide ({lname(p)} = Tbl{h.kinds[p]}.{TABLE_IS_ROLE[p]})')
+                    continue
                 if p not in TABLE_DIMS_ROLE:
                     raise Unsupported(f'{fn}: {h.name}: no index-range role for table parameter {p}')
                 conds.append(f'decide (Tbl{h.kinds[p]}.dims {lname(p)} = {TABLE_DIMS_ROLE[p]})')
                 continue
-            if p not in ROLE:
+            role = ROLE.get(f'{h.name}.{p}', ROLE.get(p))
+            if role is None:
                 raise Unsupported(f'{fn}: {h.name}: no well-formedness role for parameter {p}')
-            conds.append('decide (' + ROLE[p].format(v=lname(p)) + ')')
+            conds.append('decide (' + role.format(v=lname(p)) + ')')
+        if h.name in SP_PAIR_OK:
+            conds.append('decide ((rl = 12 ∧ rh = 13) ∨ (rl ≠ 12 ∧ rh ≠ 13))')
         out.append(f'  | .{h.name} {ps} => ' .replace('  =>', ' =>') + (' && '.join(conds) if conds else 'true'))
     out.append('  | .prefix_ _ => true')
     out.append('  | .prefix2_ _ => true\n')
